@@ -19,6 +19,8 @@ def parseSlice (s : String) : Option SliceI :=
   | ["R", a, b] => do let a ← a.toInt?; let b ← b.toInt?; pure (SliceI.range a b)
   | ["S", a, b, c] => do let a ← a.toInt?; let b ← b.toInt?; let c ← c.toInt?; pure (SliceI.strided a b c)
   | ["Q", a, b, c] => do let a ← a.toInt?; let b ← b.toInt?; let c ← c.toInt?; pure (SliceI.strided a b c)
+  | ["U", a, b, c] => do let a ← a.toInt?; let b ← b.toInt?; let c ← c.toInt?; pure (SliceI.strided a b c)
+  | ["Z", a, b, c] => do let a ← a.toInt?; let b ← b.toInt?; let c ← c.toInt?; pure (SliceI.strided a b c)
   | _ => none
 
 def SliceI.wrapT (T : ITy) : SliceI → SliceI
@@ -132,7 +134,16 @@ def subLine (kind ty : String) (rest : List String) : String :=
     let ss := wrapL T (parseList ((getKey rest "str").getD "-"))
     let sl := ((getKey rest "sl").getD "").splitOn ";"
     match sl.mapM parseSlice with
-    | some sls => subOp T kind es ss (sls.map (SliceI.wrapT T)) ((plainToks rest).headD "info")
+    | some sls =>
+      let op := (plainToks rest).headD "info"
+      if op == "mds" then
+        -- mdspan-level submdspan: data handle = accessor.offset(handle, offset) (exactly one call), accessor = offset_policy(accessor)
+        let h : Int := (((getKey rest "h").getD "0").toInt?).getD 0
+        let id : Int := (((getKey rest "id").getD "0").toInt?).getD 0
+        match subMapping T kind es ss (sls.map (SliceI.wrapT T)) with
+        | .ok r => s!"h={h + r.off} acc={id} n=1 log={-1 - h},{r.off} same=1 ext={fmtL r.exts}"
+        | .error e => ubStr e
+      else subOp T kind es ss (sls.map (SliceI.wrapT T)) op
     | none => "bad-op"
 
 end Drv
